@@ -380,9 +380,10 @@ impl FixtureDatabase {
                                 }
                             }
 
-                            if !processed_files.contains(&canonical)
-                                && !self.is_analyzed(&canonical)
-                            {
+                            // A module that was analyzed already (opened in the editor
+                            // before the scan got here) is visited all the same: its own
+                            // imports have not been followed by anyone yet
+                            if !processed_files.contains(&canonical) {
                                 new_modules.insert(canonical);
                             }
                         }
@@ -414,9 +415,10 @@ impl FixtureDatabase {
                                 }
                             }
 
-                            if !processed_files.contains(&canonical)
-                                && !self.is_analyzed(&canonical)
-                            {
+                            // A module that was analyzed already (opened in the editor
+                            // before the scan got here) is visited all the same: its own
+                            // imports have not been followed by anyone yet
+                            if !processed_files.contains(&canonical) {
                                 new_modules.insert(canonical);
                             }
                         }
@@ -437,6 +439,9 @@ impl FixtureDatabase {
 
             // Analyze the new modules
             for module_path in &new_modules {
+                if self.is_analyzed(module_path) {
+                    continue;
+                }
                 if module_path.exists() {
                     debug!("Analyzing imported module: {:?}", module_path);
                     match std::fs::read_to_string(module_path) {
